@@ -175,6 +175,37 @@ pub fn run_scenario(id: &str, sc: &Value, fail_at: usize, mode: FaultMode) -> Ou
             }
             o
         }
+        "read" if sc["api"].as_str() == Some("stream") => {
+            // the frame-at-a-time reader over a BufRead whose refills cut the data every `cap` bytes (a refill then falls between the
+            // two bytes of a frame's sync code); running out of data while looking for a sync code is the end of the run
+            let pcm = pcm40();
+            let mut file = vec![];
+            {
+                let mut w = FlacStreamWriter::new(&mut file, Options::default());
+                w.write(44100, 2, 16, &pcm[..32]).unwrap();
+                w.write(48000, 1, 16, &pcm[32..60]).unwrap();
+                w.write(44100, 2, 8, &[1, -2, 3, -4, 5, -6]).unwrap();
+                w.write(44100, 2, 16, &pcm[40..]).unwrap();
+            }
+            let cap = sc["cap"].as_u64().unwrap_or(8) as usize;
+            let mut rw = FaultyRW::new(file, fail_at, mode, true, false);
+            let r = catch(|| -> Result<Vec<u8>, String> {
+                let mut r = flac_codec::decode::FlacStreamReader::new(std::io::BufReader::with_capacity(cap, &mut rw));
+                let mut v = vec![];
+                loop {
+                    match r.read() {
+                        Ok(f) => {
+                            v.extend([f.sample_rate as i32, f.channels as i32, f.bits_per_sample as i32, f.samples.len() as i32]);
+                            v.extend_from_slice(f.samples);
+                        }
+                        Err(flac_codec::Error::Io(e)) if e.kind() == std::io::ErrorKind::UnexpectedEof && e.to_string().contains("looking for frame sync") => break,
+                        Err(e) => return Err(e.to_string()),
+                    }
+                }
+                Ok(samples_bytes(&v))
+            });
+            finish(r, rw)
+        }
         "read" => {
             let file = sample_file(true, 20);
             let mut rw = FaultyRW::new(file, fail_at, mode, true, false);
